@@ -570,6 +570,16 @@ func (e *SpecEnv) call(n *SCall, old bool) Term {
 			return a
 		}
 		return Term{S: "(to_real " + a.S + ")", Sort: "Real"}
+	case "b2f", "f2b":
+		need(1)
+		e.d().declFun("f2b", []string{"Real"}, "Int")
+		e.d().declFun("b2f", []string{"Int"}, "Real")
+		e.d().add("ax:f2b", "(assert (forall ((x Real)) (! (and (= (b2f (f2b x)) x) (<= 0 (f2b x)) (<= (f2b x) 18446744073709551615)) :pattern ((f2b x)))))")
+		a := args()[0]
+		if n.Fn == "b2f" {
+			return Term{S: "(b2f " + a.S + ")", Sort: "Real"}
+		}
+		return Term{S: "(f2b " + a.S + ")", Sort: "Int"}
 	case "floor":
 		need(1)
 		return Term{S: "(to_int " + args()[0].S + ")", Sort: "Int"}
@@ -622,6 +632,18 @@ func (e *SpecEnv) call(n *SCall, old bool) Term {
 			return Term{S: sor("(= (s-obj "+a.S+") 0)", "(>= (s-obj "+a.S+") "+ao+")"), Sort: "Bool"}
 		}
 		return Term{S: "(>= " + a.S + " " + ao + ")", Sort: "Bool"}
+	case "freshInLoop":
+		// freshInLoop(x): x was allocated during the current iteration of the innermost enclosing loop
+		need(1)
+		a := args()[0]
+		la := e.tx.loopAllocAt(e.tx.curBlock)
+		if la == "" {
+			e.fail("freshInLoop() used outside a loop")
+		}
+		if a.Sort == "Slice" {
+			return Term{S: "(>= (s-obj " + a.S + ") " + la + ")", Sort: "Bool"}
+		}
+		return Term{S: "(>= " + a.S + " " + la + ")", Sort: "Bool"}
 	case "calls", "lastarg", "lastret":
 		id, ok := n.Args[0].(*SIdent)
 		if !ok {
